@@ -8,7 +8,7 @@ import time
 import traceback
 
 JOBS = int(os.environ.get('VERIF_JOBS', '16'))
-CONTRACT_MODULES = ['contracts.dict_operations', 'contracts.point', 'contracts.expression', 'contracts.evals', 'contracts.translations', 'contracts.pep', 'contracts.wrappers', 'contracts.block_partition', 'contracts.function', 'contracts.mosek', 'contracts.psd_matrix', 'contracts.pairs', 'contracts.pepeval']
+CONTRACT_MODULES = ['contracts.dict_operations', 'contracts.point', 'contracts.expression', 'contracts.evals', 'contracts.translations', 'contracts.pep', 'contracts.wrappers', 'contracts.block_partition', 'contracts.function', 'contracts.mosek', 'contracts.psd_matrix', 'contracts.pairs', 'contracts.pepeval', 'contracts.solve']
 
 
 def load_contracts():
